@@ -353,11 +353,56 @@ def run_silent_after_reply(role, idle, ka, pending, obs):
     return []
 
 
-def run_announced(role, seg_mru, xfer_mru, keepalive, obs):
+def run_stalled_reader(role, ka, stall_s, obs):
+    ''' The peer stops reading for longer than the keepalive interval while the endpoint has octets waiting for a full socket
+    (so the keepalive timer expires with a backlog), then reads and acknowledges everything and falls silent: from then on a
+    KEEPALIVE is due every interval, as at any other time. '''
+    from vf.props import c09
+    wt = c09.Waiter(dict(seed=0, policy='eager', capacity=1024, seg=30000, role=role, refuse=False, peer_terminates='never'))
+    # (the scripted peer of C09 is reused for its slow reader; its keepalive is the one it announces here)
+    cfg_ka = wt.end.cfg
+    cfg_ka.keepalive_time = ka
+    sim = wt.sim
+    sim.settle(20000)
+    wt.queue(tw.encode(dict(type='contact', flags=0)))
+    wt.queue(tw.encode(dict(type='SESS_INIT', keepalive=ka, segment_mru=2 ** 20, transfer_mru=2 ** 30, nodeid=b'dtn://peer/', ext=[])))
+    for _ in range(50):
+        wt.pump(4096)
+        sim.settle(20000)
+        if any(msg['type'] == 'SESS_INIT' for msg in wt.msgs):
+            break
+    wt.end.call('send_bundle_data', dbus.ByteArray(bytes((pos * 7) & 0xFF for pos in range(20000))))
+    sim.settle(20000)
+    sim.advance(int(stall_s * 1000) * MS)         # nobody reads: the socket stays full
+    for _ in range(400):
+        moved = wt.pump(4096)
+        sim.settle(20000)
+        if not moved and not wt.end_sock.tx.rxbuf and not wt.outbuf:
+            break
+    obs['runs'] += 1
+    n_before = sum(1 for msg in wt.msgs if msg['type'] == 'KEEPALIVE')
+    for _ in range(3 * ka * 4):
+        sim.advance(250 * MS)
+        wt.pump(4096)
+        sim.settle(20000)
+    n_after = sum(1 for msg in wt.msgs if msg['type'] == 'KEEPALIVE')
+    errs = sim.world.callback_errors
+    if errs:
+        return ['callback %s raised %s' % (errs[0].source, errs[0].exc_type)]
+    if wt.end_sock.closed:
+        return []
+    obs['stalled_reader_runs'] = obs.get('stalled_reader_runs', 0) + 1
+    if n_after - n_before < 2:
+        return ['%s endpoint, keepalive %d s: after the peer had not read for %.1f s (keepalive expiry with octets waiting for a full socket) and '
+                'then acknowledged everything, only %d KEEPALIVE arrived in the following %d s of silence' % (role, ka, stall_s, n_after - n_before, 3 * ka)]
+    return []
+
+
+def run_announced(role, seg_mru, xfer_mru, keepalive, obs, nodeid='dtn://announcer/'):
     ''' A scripted peer announces arbitrary values; get_session_parameters() must report them as announced. '''
     from vf.props import c17
     peer = c17.Peer(role, 'pre-init')
-    peer.write(tw.encode(dict(type='SESS_INIT', keepalive=keepalive, segment_mru=seg_mru, transfer_mru=xfer_mru, nodeid=b'dtn://announcer/', ext=[])))
+    peer.write(tw.encode(dict(type='SESS_INIT', keepalive=keepalive, segment_mru=seg_mru, transfer_mru=xfer_mru, nodeid=nodeid.encode('utf-8'), ext=[])))
     peer.sent_sess_init = True
     peer.settle()
     obs['runs'] += 1
@@ -375,8 +420,10 @@ def run_announced(role, seg_mru, xfer_mru, keepalive, obs):
         problems.append('peer segment MRU reported as %r, announced %r (with transfer MRU %r)' % (params.get('peer_segment_mru'), seg_mru, xfer_mru))
     if params.get('peer_transfer_mru') != clamp(xfer_mru):
         problems.append('peer transfer MRU reported as %r, announced %r' % (params.get('peer_transfer_mru'), xfer_mru))
-    if str(params.get('peer_nodeid')) != 'dtn://announcer/':
-        problems.append('peer node id reported as %r' % (params.get('peer_nodeid'),))
+    if str(params.get('peer_nodeid')) != nodeid:
+        got = str(params.get('peer_nodeid'))
+        problems.append('peer node id (%d characters, %d octets) reported as %r (%d characters)' % (
+            len(nodeid), len(nodeid.encode('utf-8')), got[:40] + ('...' + got[-20:] if len(got) > 60 else got[40:]), len(got)))
     if params.get('keepalive') != min(keepalive, 0):
         problems.append('negotiated keepalive %r, min of 0 (own) and %r' % (params.get('keepalive'), keepalive))
     return problems
@@ -453,6 +500,7 @@ def cases(tier, seed):
                 out.append(dict(id='mute-idle-%d-%d' % (idle, ka), kind='mute', idle=idle, ka=ka, before_ms=0, bundle=0, how='idle'))
     out.append(dict(id='announced', kind='announced'))
     out.append(dict(id='silent-after-reply', kind='silent'))
+    out.append(dict(id='stalled-reader', kind='stalled'))
     rng = random.Random(seed)
     for idx in range(120 if thorough else 16):
         out.append(dict(id='adapt-%d' % idx, kind='adaptive', seed=seed * 31 + idx,
@@ -518,6 +566,15 @@ def run_case(case):
                 for keepalive in (0, 7, 65535):
                     params = dict(role=role, seg_mru=seg_mru, xfer_mru=xfer_mru, keepalive=keepalive)
                     note(run_announced(role, seg_mru, xfer_mru, keepalive, obs), 'announced', params)
+        # node ids across the one-octet / two-octet length boundary, in characters and in octets
+        for role in ('passive', 'active'):
+            for nodeid in ('dtn://' + 'n' * 248 + '/', 'dtn://' + 'n' * 249 + '/', 'dtn://' + 'n' * 293 + '/', 'dtn://' + 'n' * 2000 + '/svc',
+                           'dtn://' + '\u00e9' * 130 + '/', 'ipn:' + '9' * 19 + '.' + '7' * 19, 'dtn://a/', 'x:'):
+                note(run_announced(role, 4096, 2 ** 20, 0, obs, nodeid=nodeid), 'announced', dict(role=role, nodeid_len=len(nodeid)))
+    elif case['kind'] == 'stalled':
+        for role in ('passive', 'active'):
+            for (ka, stall_s) in ((1, 2.5), (2, 2.1), (3, 10), (2, 0.5)):
+                note(run_stalled_reader(role, ka, stall_s, obs), 'stalled', dict(role=role, ka=ka, stall_s=stall_s))
     elif case['kind'] == 'silent':
         for role in ('passive', 'active'):
             for idle in (2, 5):
